@@ -216,6 +216,27 @@ def run(ctx):
                 "does not refuse (raise) on entry once the client is closed", where(g, g.node),
                 "an operation started after close() is not failed with ClientError (it is silently cancelled or proceeds)")
 
+    # a handler in the client that absorbs an exception (no re-raise anywhere in its arm) must not be able to catch what
+    # a closed client raises (ClientError, CancelledError): otherwise an operation on a closed client "succeeds"
+    from .c09 import exc_table
+    anc_, _al = exc_table(prog)
+    closed_errs = {"ClientError", "CancelledError"}
+    n_abs = 0
+    for f in sorted([x for x in prog.funcs.values() if x.cls is ci or (x.parent is not None and x.cls is ci)], key=lambda x: x.qname):
+        cfh = ctx.cfg(f)
+        for hn in [n for n in cfh.nodes if n.kind == "except"]:
+            arm_ = cfh.reach([hn.id])
+            reraises = any(cfh.nodes[i_].kind == "stmt" and isinstance(cfh.nodes[i_].stmt, ast.Raise) for i_ in arm_)
+            if reraises:
+                continue
+            t_ = hn.stmt.type
+            names_ = ["BaseException"] if t_ is None else [unparse(e).split(".")[-1] for e in (t_.elts if isinstance(t_, ast.Tuple) else [t_])]
+            catches = sorted(c_ for c_ in closed_errs if any(nm in anc_.get(c_, {c_}) or nm in ("Exception", "BaseException") for nm in names_))
+            n_abs += 1
+            r.check(not catches, "%s#absorbing-handler(%s)" % (f.qname, ",".join(names_)), "the handler absorbs %s, which includes the %s raised for a closed "
+                    "client" % (names_, catches), where(f, hn.stmt), "an operation in progress at close, or started on a closed client, returns a "
+                    "value instead of failing")
+
     # ---- R4 nothing new after close (G-YIELD)
     r = ctx.rule("R4", "I/O sites that follow a suspension re-check _closing (or call a function that does) after it", 3, "B")
     for f in [x for x in prog.funcs.values() if x.cls is ci and x.is_inline_callbacks]:
